@@ -551,12 +551,16 @@ def answer (line : String) : String :=
       let ops1 := rest.takeWhile (· != "/")
       match rest.dropWhile (· != "/") with
       | _ :: c2 :: j2 :: ops2 => withCal c1 fun a => withCal c2 fun b =>
-          match i32? j1, i32? j2 with
-          | some j1, some j2 => withDate a j1 fun d1 => withDate b j2 fun d2 =>
+          match i32? j1 with
+          | some j1 => withDate a j1 fun d1 =>
               let x := histFinal d1 ops1
-              let y := histFinal d2 ops2
-              s!"{showOrd (x.cmp y)} {b01 (x.beq y)} {b01 (x.hashKey == y.hashKey)} {b01 (showDate x == showDate y)} {x.jdn} {calTok x.calendar} {y.jdn} {calTok y.calendar}"
-          | _, _ => "BADREQ"
+              -- `=`: the second history starts on the day the first one ended on
+              match (if j2 == "=" then some x.jdn else i32? j2) with
+              | some j2 => withDate b j2 fun d2 =>
+                let y := histFinal d2 ops2
+                s!"{showOrd (x.cmp y)} {b01 (x.beq y)} {b01 (x.hashKey == y.hashKey)} {b01 (showDate x == showDate y)} {x.jdn} {calTok x.calendar} {y.jdn} {calTok y.calendar}"
+              | none => "BADREQ"
+          | none => "BADREQ"
       | _ => "BADREQ"
   | ["chrono_from", y, m, d] =>
       match i32? y, u32? m, u32? d with
